@@ -31,6 +31,16 @@ def controls(ctx):
         if ("Invariant %s is violated" % inv) not in r["out"]:
             raise Inconclusive("Lifecycle.tla: defect %s does not break %s - the invariant would be vacuous:\n%s" % (d, inv, tail(r["out"], 20)))
         done[d] = inv
+    # action property: the context is polled between accepts (holds in the design, broken by pollOnlyOnTimeout)
+    for d, want in (("", False), ("pollOnlyOnTimeout", True)):
+        cfg = "MCLC_poll%d.cfg" % int(want)
+        with open(os.path.join(ctx.specdir(), cfg), "w") as f:
+            f.write("SPECIFICATION Spec\nCONSTANTS\n  Conns = {1, 2}\n  MaxPkts = 1\n  Defects = {%s}\n  Record = FALSE\nPROPERTY PollsContextBetweenAccepts\nCHECK_DEADLOCK FALSE\n" % (('"%s"' % d) if d else ""))
+        r = ctx.tlc("MC_Lifecycle", cfg=cfg, workers=4, heap="4g", timeout=600)
+        broken = "PollsContextBetweenAccepts is violated" in r["out"] or "Action property" in r["out"] and "violated" in r["out"]
+        if broken != want or (not want and "No error has been found" not in r["out"]):
+            raise Inconclusive("Lifecycle.tla: PollsContextBetweenAccepts with defects {%s}: expected %s:\n%s" % (d, "a violation" if want else "no error", tail(r["out"], 20)))
+    done["pollOnlyOnTimeout"] = "PollsContextBetweenAccepts"
     # liveness control: a provider that stops answering after cancellation breaks ShutdownCompletes
     cfg = "MCLC_live.cfg"
     with open(os.path.join(ctx.specdir(), cfg), "w") as f:
@@ -165,6 +175,10 @@ def drip_schedules():
     L(3, [["offer", 1], ["cancel", 0], ["release", 1], ["offer", 2], ["release", 2], ["kick", 0]])
     L(4, [["offer", 1], ["release", 1], ["packetc", 1], ["cancel", 0], ["offer", 2], ["kick", 0], ["release", 2], ["hrel", 1]])
     L(5, [["offer", 1], ["release", 1], ["eof", 1], ["offer", 2], ["release", 2], ["packet", 2], ["hrel", 2], ["cancel", 0], ["kick", 0]])
+    # connections that keep arriving after the cancellation: the one Accept that was already blocked may take one, no more
+    out.append({"id": "arrive1", "steps": [["offer", 1], ["release", 1], ["cancel", 0], ["offer", 2], ["release", 2], ["offer", 3], ["release", 3], ["offer", 4], ["release", 4]], "refuse": []})
+    out.append({"id": "arrive2", "steps": [["cancel", 0], ["offer", 1], ["offer", 2], ["offer", 3], ["release", 1], ["release", 2], ["release", 3]], "refuse": []})
+    out.append({"id": "arrive3", "steps": [["offer", 1], ["release", 1], ["packetc", 1], ["cancel", 0], ["offer", 2], ["offer", 3], ["hrel", 1], ["offer", 4], ["offer", 5]], "refuse": []})
     out.append({"id": "refused1", "steps": [["offer", 1], ["release", 1], ["offer", 2], ["release", 2], ["packet", 2], ["hrel", 2], ["offer", 3], ["release", 3]], "refuse": [1, 3]})
     return out
 
